@@ -489,3 +489,60 @@ where
     };
     newton_raphson_onesided(x0, f0, f1)
 }
+
+// verification-only hooks (see /verif); compiled only under the guard cfg
+#[cfg(oxfordcontrol_clarabel_rs_verif)]
+#[allow(missing_docs, non_snake_case)]
+pub mod verif_hooks_pow {
+    //! forwarders to the crate-private barrier calculus of this cone and read access to its stored
+    //! gradient / Hessian / scaling matrix (packed upper triangle, column-major: 00 01 11 02 12 22)
+    use super::*;
+    pub fn update_dual_grad_H<T: FloatT>(c: &mut PowerCone<T>, z: &[T]) {
+        c.update_dual_grad_H(z)
+    }
+    pub fn barrier_dual<T: FloatT>(c: &mut PowerCone<T>, z: &[T]) -> T {
+        c.barrier_dual(z)
+    }
+    pub fn barrier_primal<T: FloatT>(c: &mut PowerCone<T>, s: &[T]) -> T {
+        c.barrier_primal(s)
+    }
+    pub fn higher_correction<T: FloatT>(c: &mut PowerCone<T>, η: &mut [T], ds: &[T], v: &[T]) {
+        c.higher_correction(η, ds, v)
+    }
+    pub fn gradient_primal<T: FloatT>(c: &PowerCone<T>, s: &[T]) -> [T; 3] {
+        c.gradient_primal(s)
+    }
+    pub fn is_primal_feasible<T: FloatT>(c: &PowerCone<T>, s: &[T]) -> bool {
+        c.is_primal_feasible(s)
+    }
+    pub fn is_dual_feasible<T: FloatT>(c: &PowerCone<T>, z: &[T]) -> bool {
+        c.is_dual_feasible(z)
+    }
+    pub fn use_primal_dual_scaling<T: FloatT>(c: &mut PowerCone<T>, s: &[T], z: &[T]) {
+        c.use_primal_dual_scaling(s, z)
+    }
+    pub fn use_dual_scaling<T: FloatT>(c: &mut PowerCone<T>, μ: T) {
+        c.use_dual_scaling(μ)
+    }
+    pub fn grad<T: FloatT>(c: &PowerCone<T>) -> [T; 3] {
+        c.grad
+    }
+    pub fn set_grad<T: FloatT>(c: &mut PowerCone<T>, g: [T; 3]) {
+        c.grad = g;
+    }
+    pub fn z<T: FloatT>(c: &PowerCone<T>) -> [T; 3] {
+        c.z
+    }
+    pub fn set_z<T: FloatT>(c: &mut PowerCone<T>, z: [T; 3]) {
+        c.z = z;
+    }
+    pub fn H_dual<T: FloatT>(c: &PowerCone<T>) -> [T; 6] {
+        c.H_dual.data
+    }
+    pub fn set_H_dual<T: FloatT>(c: &mut PowerCone<T>, h: [T; 6]) {
+        c.H_dual.data = h;
+    }
+    pub fn Hs<T: FloatT>(c: &PowerCone<T>) -> [T; 6] {
+        c.Hs.data
+    }
+}
